@@ -42,6 +42,7 @@ type FuncContract struct {
 	HasMod   bool
 	Loops    []LoopClause
 	Uses     []string
+	UseExprs []ast.Expr
 	File     string
 	Line     int
 }
@@ -70,6 +71,8 @@ type Lemma struct {
 	Stmt    ast.Expr
 	IndVar  string
 	From    string
+	TriggerSrc string
+	Trigger    ast.Expr
 	Hyps    []string // extra hypotheses (source)
 	File    string
 	Line    int
@@ -367,7 +370,13 @@ func (db *ContractDB) parseFile(pkg, file, text string) {
 			}
 		case "use":
 			if cur != nil {
-				cur.Uses = append(cur.Uses, strings.Fields(rest)...)
+				e, err := parser.ParseExpr(rest)
+				if err != nil {
+					errf(l.line, "parse use %q: %v", rest, err)
+					continue
+				}
+				cur.Uses = append(cur.Uses, rest)
+				cur.UseExprs = append(cur.UseExprs, e)
 			}
 		case "loop":
 			if cur == nil || len(fs) < 3 {
@@ -444,6 +453,15 @@ func (db *ContractDB) parseFile(pkg, file, text string) {
 			}
 			lm := &Lemma{Name: strings.TrimSpace(rest[:open]), Pkg: pkg, Params: parseParams(rest[open+1 : closeIdx]), File: file, Line: l.line}
 			body := strings.TrimSpace(rest[closeIdx+2:])
+			if i := strings.Index(body, " trigger "); i >= 0 {
+				lm.TriggerSrc = strings.TrimSpace(body[i+len(" trigger "):])
+				body = strings.TrimSpace(body[:i])
+				if te, err := parseSpecExpr(lm.TriggerSrc); err == nil {
+					lm.Trigger = te
+				} else {
+					errf(l.line, "parse trigger: %v", err)
+				}
+			}
 			if i := strings.Index(body, " by induction "); i >= 0 {
 				tail := strings.Fields(body[i+len(" by induction "):])
 				body = strings.TrimSpace(body[:i])
